@@ -20,6 +20,7 @@ import (
 	"bufio"
 	"context"
 	"fmt"
+	"io"
 	"os"
 	"os/exec"
 	"path/filepath"
@@ -380,8 +381,87 @@ func c03Diff(want ssmRef, got string) string {
 	return strings.Join(d, ", ")
 }
 
+// c03InstallCrash: the crash point "a snapshot received from the leader is installed in the
+// snapshot store (sink closed), the process dies before FSM.Restore ran". What raft's
+// installSnapshot does is done by hand on the real store: the stream goes into a sink of the
+// snapshot store, the sink is closed; then the data directory is copied (the crash) and a store
+// is opened on the copy by a PLAIN restart: it must hold the received database, not the old file
+// under the new snapshot's index. Then FSM.Restore completes the install on the original.
+func c03InstallCrash(t *testing.T, rep *vfReport, r *vfRng) (ops, impl []string) {
+	var e *ssmEnv
+	defer ssmGuard(rep, &e, &ops, &impl)
+	e = ssmNewEnv(t, rep, r, "C03", false)
+	defer e.cleanup()
+	for i := 0; i < 1+r.Intn(3); i++ {
+		e.exec(r.Chance(30), e.genStmts())
+	}
+	e.exec(false, []ssmStmt{{"p", 100, r.Intn(1000)}})
+	if !e.snapshot(r.Intn(2)) { // the marker now vouches for the file as of THIS snapshot
+		return e.ops, e.impl
+	}
+	for i := 0; i < 1+r.Intn(2); i++ { // the leader's snapshot is ahead of the local one
+		e.exec(false, []ssmStmt{{"p", 100, r.Intn(1000)}, {"a", 1 + r.Intn(8), 1}})
+	}
+	rows := e.genRows()
+	rows[777] = 1
+	b := ssmMakeDB(e.t, e.dir, rows, false)
+	p := filepath.Join(e.dir, "verif-leader-snapshot.db")
+	if err := os.WriteFile(p, b, 0o644); err != nil {
+		t.Fatal(err)
+	}
+	defer os.Remove(p)
+	cf := e.s.raft.GetConfiguration()
+	if err := cf.Error(); err != nil {
+		e.opFailed("get configuration", err)
+	}
+	sink, err := e.s.snapshotStore.Create(1, e.s.raft.AppliedIndex(), e.s.raft.CurrentTerm(), cf.Configuration(), 1, nil)
+	if err != nil {
+		t.Fatalf("install: create sink: %v", err)
+	}
+	str, err := snapshot.NewSnapshotStreamer(p)
+	if err != nil {
+		t.Fatal(err)
+	}
+	if err := str.Open(); err != nil {
+		t.Fatal(err)
+	}
+	if _, err := io.Copy(sink, str); err != nil {
+		t.Fatalf("install: copy: %v", err)
+	}
+	str.Close()
+	if err := sink.Close(); err != nil {
+		t.Fatalf("install: close: %v", err)
+	}
+	os.Remove(p)
+	e.hist = append(e.hist, fmt.Sprintf("snapshot-from-leader-installed-in-store(%s)", rows))
+	e.emit("recv-snap "+rows.String(), "ok")
+	e.want = rows.clone() // what the node stands for from now on
+	rep.Count("op-install-sink-closed")
+	c03Image(e, "install-sink-closed-before-fsm-restore")
+	if e.broken {
+		rep.Case("directed:install-crash "+strings.Join(e.hist, " "), true)
+		return e.ops, e.impl
+	}
+	// the second half of the install, on the original
+	_, rc, err := e.s.snapshotStore.Open(sink.ID())
+	if err != nil {
+		t.Fatalf("install: open: %v", err)
+	}
+	if err := NewFSM(e.s).Restore(rc); err != nil {
+		t.Fatalf("install: restore: %v", err)
+	}
+	e.hist = append(e.hist, "fsm-restore")
+	e.emit("recv-restore", "ok")
+	e.dump("table-wrong-after-install")
+	if !e.broken {
+		c03Image(e, "after-install")
+	}
+	rep.Case("directed:install-crash "+strings.Join(e.hist, " "), true)
+	return e.ops, e.impl
+}
+
 func TestVerifC03(t *testing.T) {
-	rep := vfNewReport("C03", "crash images of real single-node stores: generated histories of write requests (incl. non-idempotent updates), loads, raft-driven snapshots with/without log truncation, step-by-step snapshots (checkpoint / persist / install / fingerprint) and clean restarts, plus one directed history over a multi-page table (two consecutive snapshots whose WAL truncation is blocked by parked read transactions, a write to the first leaf page followed only by writes to the last, snapshot, restart forced to rebuild); at generated points the data directory is copied as a kill -9 would leave it and a new store is opened on the copy; non-trivial = at least one crash image; distinct by history text")
+	rep := vfNewReport("C03", "crash images of real single-node stores: generated histories of write requests (incl. non-idempotent updates), loads, raft-driven snapshots with/without log truncation, step-by-step snapshots (checkpoint / persist / install / fingerprint) and clean restarts, plus one directed history over a multi-page table (two consecutive snapshots whose WAL truncation is blocked by parked read transactions, a write to the first leaf page followed only by writes to the last, snapshot, restart forced to rebuild) and directed histories of the crash point 'snapshot from the leader installed in the store, FSM.Restore not run' followed by a plain restart; at generated points the data directory is copied as a kill -9 would leave it and a new store is opened on the copy; non-trivial = at least one crash image; distinct by history text")
 	defer rep.Write()
 	r := ssmRng(3)
 	n := vfScale(3, 40)
@@ -394,6 +474,11 @@ func TestVerifC03(t *testing.T) {
 	dops, dimpl := c03BlockedCheckpoints(t, rep, r)
 	allOps = append(allOps, dops)
 	allImpl = append(allImpl, dimpl)
+	for i := 0; i < vfScale(1, 8); i++ {
+		iops, iimpl := c03InstallCrash(t, rep, r)
+		allOps = append(allOps, iops)
+		allImpl = append(allImpl, iimpl)
+	}
 	ssmFloor(rep)
 	rep.vfCompareSegments("storesm", allOps, allImpl)
 }
